@@ -63,6 +63,9 @@ Lemma dist_of_some r sh ps : dist_of r = Some (sh, ps) ->
   exists E, r = MOk (QEns _ E) /\ d_shape _ (en_dist _ E) = sh /\ d_ps _ (en_dist _ E) = ps.
 Proof. destruct r as [[| | | |E|]|]; cbn; try discriminate. intros H. injection H as <- <-. now exists E. Qed.
 
+(* conversion must unfold the named witnesses first, never evaluate the model lazily *)
+Strategy expand [w_seq w_left w_cut].
+
 (* REFUTATION of associativity on the faithful model: both bracketings of (MProcess, MProcess, State) are defined and give
    different shapes and different probabilities *)
 Theorem compose_mprocess_mprocess_refuted :
@@ -76,9 +79,10 @@ Proof. destruct (dist_of_some _ _ _ w_seq_value) as (E1 & H1 & S1 & P1).
   pose proof w_left_coded_value as HL. unfold w_left in HL.
   destruct (w_compose2 false false (QMProc QF mpA) (QMProc QF mpB)) as [AB|c] eqn:EAB; [|discriminate].
   cbn [w_bind] in HL. destruct (dist_of_some _ _ _ HL) as (E2 & H2 & S2 & P2).
-  exists mpA, mpB, 1%Z, w_vec, AB, E1, E2. repeat split; try assumption.
+  exists mpA, mpB, 1%Z, w_vec, AB, E1, E2.
+  unfold w_seq in H1. split; [exact H1|]. split; [exact EAB|]. split; [exact H2|]. split.
   - rewrite S1, S2. discriminate.
-  - rewrite P1, P2. intros E. injection E as E _. apply (f_equal (fun x => Qnum (this x))) in E. vm_compute in E. discriminate. Qed.
+  - rewrite P1, P2. intros E. apply (f_equal (fun l => match l with x :: _ => Qnum (this x) | nil => 0%Z end)) in E. vm_compute in E. discriminate. Qed.
 
 (* the same chain with the repaired formula: the two bracketings coincide *)
 Theorem compose_mprocess_mprocess_fixed_agrees : dist_of (w_left true) = dist_of (w_seq true).
@@ -101,8 +105,9 @@ Theorem mprocess_poststate_refuted :
     nth 0 (d_ps _ (en_dist _ E)) 0%Qc <> 0%Qc /\ nth_error (en_states _ E) 0 = Some st /\ (w_sd * st 0%nat)%Qc <> 1%Qc.
 Proof. destruct (dist_of_some _ _ _ w_cut_dist) as (E & H & S & P).
   pose proof w_cut_coded as T. unfold traces_of in T. unfold w_cut in H, T. rewrite H in T. injection T as T.
-  destruct (en_states QF E) as [|st rest] eqn:Es; [discriminate|]. cbn [map] in T. injection T as T0 _.
-  exists mpZ, 1%Z, w_vec2, E, st. repeat split; [exact H| |now rewrite Es|].
+  destruct (en_states QF E) as [|st rest] eqn:Es; [discriminate|]. cbn [map] in T.
+  apply (f_equal (fun l => hd 0%Qc l)) in T. cbn [hd] in T. rename T into T0.
+  exists mpZ, 1%Z, w_vec2, E, st. split; [exact H|]. split; [|split; [now rewrite Es|]].
   - rewrite P. cbn [nth]. intros C. apply (f_equal (fun x => Qnum (this x))) in C. vm_compute in C. discriminate.
   - rewrite T0. intros C. apply (f_equal (fun x => Qnum (this x))) in C. vm_compute in C. discriminate. Qed.
 
